@@ -473,8 +473,9 @@ Qed.
    cyclic graph the middle-of-the-stack test fires (or another error is found) in time *)
 Theorem renumber_terminates cfg a : renumber_aig cfg a <> RnOutOfFuel.
 Proof.
-  unfold renumber_aig, renumber_new.
-  destruct (lit_defs a) as [defs|e] eqn:Ed; [|discriminate].
+  unfold renumber_aig.
+  destruct (renumber_new_unfold cfg a) as [(e & _ & E)|[(defs & e & _ & _ & E)|(defs & Ed & _ & _ & E)]];
+    rewrite E; try discriminate.
   destruct (init_state_inv cfg defs a (lit_defs_sound a defs Ed)) as (G0 & Hs0 & _).
   assert (Huniq : forall g g', In g (a_gates a) -> In g' (a_gates a) -> gvar g = gvar g' -> g = g').
   { intros g g'. apply NoDup_map_unique. pose proof (proj1 (lit_defs_ok a defs Ed)) as Hnd.
